@@ -424,6 +424,7 @@ func (r *FnRun) callContractB(st *State, fr *frame, instr ssa.Instruction, f *ss
 		}
 	}
 	r.applyAssigns(st, fc)
+	r.preserveUnreachableCounters(st, pre, f)
 	res := r.symResults(st, f.Signature, callee)
 	bindResults(vars, fc, f.Signature, res)
 	for _, c := range fc.Clauses {
@@ -436,6 +437,11 @@ func (r *FnRun) callContractB(st *State, fr *frame, instr ssa.Instruction, f *ss
 			continue
 		}
 		st.assume(t)
+	}
+	// ghost: number of calls made to this function (by contract) so far
+	{
+		id := r.eng.strID("fn:" + callee)
+		st.writeLeaf("ncall", []string{id}, "Int", "(+ "+sSel(st.comp("ncall", 1, "Int"), id)+" 1)")
 	}
 	r.ghostAfterCall(st, fr, callee, ord)
 	st.trail = append(st.trail, "call "+callee)
@@ -1351,4 +1357,68 @@ func (r *FnRun) freeVarContent(st *State, fv *ssa.FreeVar, ptr *V) (out *V) {
 		}
 	}()
 	return st.load(st.derefLoc(ptr))
+}
+
+// reachableFns: repository functions statically reachable from f (direct calls and closures created in them).
+func (e *Engine) reachableFns(f *ssa.Function) map[string]bool {
+	if e.reachCache == nil {
+		e.reachCache = map[*ssa.Function]map[string]bool{}
+	}
+	if m, ok := e.reachCache[f]; ok {
+		return m
+	}
+	m := map[string]bool{}
+	e.reachCache[f] = m
+	seen := map[*ssa.Function]bool{}
+	var walk func(g *ssa.Function)
+	walk = func(g *ssa.Function) {
+		if seen[g] {
+			return
+		}
+		seen[g] = true
+		for _, b := range g.Blocks {
+			for _, ins := range b.Instrs {
+				var callee *ssa.Function
+				switch x := ins.(type) {
+				case *ssa.Call:
+					callee = x.Call.StaticCallee()
+				case *ssa.Defer:
+					callee = x.Call.StaticCallee()
+				case *ssa.Go:
+					callee = x.Call.StaticCallee()
+				case *ssa.MakeClosure:
+					callee = x.Fn.(*ssa.Function)
+				}
+				if callee != nil && e.isRepoPkg(pkgOfFn(callee)) {
+					m[e.relName(callee)] = true
+					walk(callee)
+				}
+			}
+		}
+	}
+	walk(f)
+	return m
+}
+
+// preserveUnreachableCounters: a callee cannot change the call counter of a function it cannot reach.
+func (r *FnRun) preserveUnreachableCounters(st, pre *State, f *ssa.Function) {
+	if _, ok := st.heap["ncall"]; !ok {
+		return
+	}
+	reach := r.eng.reachableFns(f)
+	nw := st.comp("ncall", 1, "Int")
+	od := pre.comp("ncall", 1, "Int")
+	if nw == od {
+		return
+	}
+	for _, name := range sortedKeys(r.eng.strIDs) {
+		if !strings.HasPrefix(name, "fn:") {
+			continue
+		}
+		if reach[strings.TrimPrefix(name, "fn:")] {
+			continue
+		}
+		id := r.eng.strID(name)
+		st.assume(sEq(sSel(nw, id), sSel(od, id)))
+	}
 }
